@@ -44,7 +44,8 @@ reg(Prop(
          'PEG semantics plus the documented result-type rules (sequence_result.hpp, alternative_result.hpp, repetition_result.hpp, parse.doxygen) and '
          'prints the same canonical form; success/failure, canonical value, fatal flag and the spelled-out result type are compared.'
          ' as_struct<std::vector<int>> over two ints: the documented list-initialisation Result{t_1,t_2} (two elements).'
-         ' A user-defined skipper (derived from skipper::tag) whose unclosed comment is a FATAL error, used as *skipper: ten inputs, the parse fails where the documented semantics fail.',
+         ' A user-defined skipper (derived from skipper::tag) whose unclosed comment is a FATAL error, used as *skipper: ten inputs, the parse fails where the documented semantics fail.'
+         ' phrase_parse_stream on streams that were already read from (a header line consumed with getline): same outcome as the grammar on the remaining text.',
     assumptions=COMMON_ASSUMPTIONS + [
         'generated grammars are well-formed by construction (no left recursion, no repetition of a nullable parser)',
         'adopted implementation choices that the documentation leaves open: int_/uint/float_ accept only magnitudes that fit the type; a repetition keeps an element only if the skipper after it succeeded; error texts are not compared (C12 owns locations)',
